@@ -153,6 +153,23 @@ CLAIMED.update({
         technique="TLA+ model checking (TLC) + schedule replay over an in-memory transport + TLC trace validation"),
 })
 
+CLAIMED.update({
+    "C18": dict(
+        text="SockProto.tla models StreamProtocol + SocketStream.receive/send/send_eof/aclose (read queue, read / write "
+             "events, pause / resume, EOF, guards) with the kernel and the peer as environment actions; SockRaw.tla the "
+             "raw-socket loops of UNIXSocketStream; TLC checks the observer P_Sock (InOrderNoLossNoDup, ChunkSize, "
+             "EndOfStream / ClosedResource / BusyResource rules, NoDeadlock, BackPressure ...) as ghost state plus "
+             "machine invariants and liveness under a fair kernel; every transition of the SockProto graphs is replayed "
+             "on the real classes with a scripted transport, and TLC-simulated behaviours drive real TCP-loopback, UNIX "
+             "and from_socket pairs on asyncio and uvloop (payload bytes encode their offset); all traces are validated "
+             "by T_Sock.",
+        design_ref="DESIGN.md section 3 (C18)",
+        note="the kernel and asyncio / uvloop internals are environment; real-socket runs are samples; two genuine "
+             "defects are recorded as known findings F10 (no back-pressure before the first blocking receive) and "
+             "F16 (uvloop: closed UNIX stream stays open)",
+        technique="TLA+ model checking (TLC) + transition replay on the protocol class + real-socket traces validated by TLC"),
+})
+
 NOT_YET = "check not built yet in this round (planned, see DESIGN.md section 3)"
 
 def main():
